@@ -40,3 +40,15 @@ Definition answered (now dl : Z) (rest : list (Z * bytes)) (t : Z) (p : bytes) :
 (* a real response arrives before the current deadline somewhere in the history *)
 Definition some_answer (T : Z) (arr : list (Z * bytes)) : Prop :=
   exists pre rest now' dl' t p, arr = pre ++ rest /\ received 0 T pre now' dl' /\ answered now' dl' rest t p.
+
+(* ---- what the service writes in Request.Timeout (request.go, queryevent.go):
+   the bytes of "timeout:" followed by the quoted strconv.FormatInt(ms, 10), ms >= 0 ---- *)
+Fixpoint dec_go (fuel : nat) (n : N) (acc : bytes) : bytes :=
+  match fuel with
+  | O => acc
+  | S f =>
+    let acc' := (48 + n mod 10)%N :: acc in
+    if (n <? 10)%N then acc' else dec_go f (n / 10)%N acc'
+  end.
+Definition dec (n : N) : bytes := dec_go (S (N.to_nat (N.size n))) n [].
+Definition timeout_payload (ms : N) : bytes := timeout_key ++ [58; 34]%N ++ dec ms ++ [34]%N.
